@@ -483,3 +483,25 @@ fn c03_quirks_ipv6_header() {
     while i < n { assert!(quirk_code(&m.quirks[i]) == exp[i]); i += 1; }
     assert!(m.version == IpVersion::V6 && m.olen == 0 && m.ittl == calculate_ttl(p[7]) && m.mss == Some(40));
 }
+
+// ---------------------------------------------------------------- IP option length
+#[kani::proof]
+#[kani::unwind(8)]
+#[kani::stub(visit_tcp, echo_visit)]
+fn c03_olen_ipv4() {
+    // olen = bytes of IPv4 options = (IHL - 5) * 4, for every header length the parser accepts
+    let mut p = [0u8; 80];
+    let ihl: u8 = kani::any();
+    kani::assume(ihl <= 15);
+    p[0] = 0x40 | ihl;
+    p[2] = 0; p[3] = 80;
+    p[8] = 64;
+    p[9] = 6;
+    let ip = Ipv4Packet::new(&p).unwrap();
+    let mut cache: TtlCache<ConnectionKey, TcpTimestamp> = TtlCache::new(2);
+    if let Ok(pkg) = process_tcp_ipv4(&ip, &mut cache) {
+        let m = pkg.tcp_request.unwrap().matching;
+        assert!(m.olen == if ihl > 5 { (ihl - 5) * 4 } else { 0 });
+        assert!(m.mss == Some(ihl as u16));
+    }
+}
